@@ -72,6 +72,8 @@ PROGRAMS = {
              "kind": "finalize", "try": [2, 11], "cleanup": [12, 13]},
     "mon": {"msgs": [M("open_run"), M("monitor", "mon1"), M("checkpoint"), M("sleep")] + _point +
                     [M("unmonitor", "mon1"), M("close_run")]},
+    "monleft": {"msgs": [M("open_run"), M("monitor", "mon1"), M("checkpoint")] + _point + [M("close_run"), M("null")],
+                "kind": "finalize", "try": [2, 6], "cleanup": [7, 7]},       # still monitored when the run is closed by the plan's clean-up
     "multi": {"msgs": [M("open_run", run="k1"), M("open_run", run="k2"), M("checkpoint"), M("create", run="k1", a="primary"),
                        M("read", "det", run="k1"), M("save", run="k1"), M("create", run="k2", a="primary"),
                        M("read", "det2", run="k2"), M("save", run="k2"), M("close_run", run="k1"), M("checkpoint"),
@@ -102,9 +104,19 @@ PROGRAMS = {
     "cfg": {"msgs": [M("open_run"), M("checkpoint"), M("create", a="primary"), M("read", "det"), M("save"), M("configure", "det"),
                      M("checkpoint"), M("create", a="primary"), M("read", "det"), M("save"), M("create", a="baseline"), M("read", "det2"), M("save"),
                      M("configure", "det2"), M("create", a="baseline"), M("read", "det2"), M("save"), M("close_run")]},
+    "cfgdrop": {"msgs": [M("open_run"), M("checkpoint"), M("create", a="primary"), M("read", "det"), M("drop"), M("configure", "det"),
+                         M("create", a="primary"), M("read", "det"), M("save"), M("create", a="baseline"), M("read", "det"), M("read", "det2"), M("save"),
+                         M("close_run")]},
+    # a monitor stream of one run named like an ordinary stream of a concurrent run
+    "multimon": {"msgs": [M("open_run", run="k1"), M("open_run", run="k2"), M("monitor", "mon1", run="k1", a="primary"), M("checkpoint"),
+                          M("create", run="k2", a="primary"), M("read", "det2", run="k2"), M("save", run="k2"), M("checkpoint"),
+                          M("create", run="k2", a="primary"), M("read", "det2", run="k2"), M("save", run="k2"), M("null"), M("null"),
+                          M("checkpoint"), M("create", run="k2", a="primary"), M("read", "det2", run="k2"), M("save", run="k2"),
+                          M("unmonitor", "mon1", run="k1"), M("close_run", run="k1"), M("close_run", run="k2")]},
     "cfginb": {"msgs": [M("open_run"), M("checkpoint"), M("create", a="primary"), M("read", "det"), M("configure", "det"), M("save"), M("close_run")]},
 }
-NOT_CONFORMANCE = {"cfg", "cfginb"}        # use commands RE.tla does not model (yet): monitored only
+MULTI_RUN_PLANS = {"multi", "multimon", "dupopen"}
+NOT_CONFORMANCE = {"cfg", "cfginb", "cfgdrop", "multimon"}        # use commands RE.tla does not model (yet): monitored only
 
 BUILTINS = {
     "count": {"builtin": "count", "args": {"dets": ["det"], "num": 2}},
@@ -438,7 +450,8 @@ def build_corpus(tier):
     scs += suspender_scenarios(tier)
     scs += random_bundle_programs(tier)
     scs += defer_pair_scenarios(tier)
-    for pn, lst in sweep(["collide", "emptysave", "ckptinb", "dupopen", "cfg", "cfginb"], ["pause", "suspend"] if quick_tier(tier) else ["pause", "suspend", "abort", "defer"],
+    scs += double_suspension_scenarios(tier)
+    for pn, lst in sweep(["collide", "emptysave", "ckptinb", "dupopen", "cfg", "cfginb", "cfgdrop", "multimon"], ["pause", "suspend"] if quick_tier(tier) else ["pause", "suspend", "abort", "defer"],
                          ["resume"], record_intr=True):
         if isinstance(lst, dict):
             raise RuntimeError(f"baseline of {pn} failed: {lst['error']}")
@@ -465,7 +478,7 @@ def build_corpus(tier):
         exp = base.get(key, []) if "|nori" not in r["id"] else base.get(key, [])
         out.append({"id": r["id"], "events": exp + r["events"], "outcomes": r["outcomes"], "final": r["final"],
                     "conf": r["id"].split("|")[0] not in NOT_CONFORMANCE and not r["id"].startswith("sus:")
-                            and not r["id"].startswith("rb") and not r["id"].startswith("mon|notify")})
+                            and not r["id"].startswith("rb") and not r["id"].startswith("mon|notify") and "clear_sub:raise" not in r["id"]})
     return {"traces": out, "wall": time.time() - t0}
 
 
@@ -519,6 +532,11 @@ def fault_scenarios(tier):
 def monitor_scenarios(tier):
     """monitor updates at every scheduling point, alone and around a pause / suspension"""
     out = []
+    # the device fails once when the engine removes its subscription (at unmonitor / close_run / clean-up)
+    for prog in ("mon", "monleft"):
+        sc = base_scenario(prog, faults={"mon1": {"clear_sub": "raise"}})
+        sc["id"] = f"{prog}|fault:mon1.clear_sub:raise"
+        out.append(sc)
     # a signal that notifies on subscribe + a document consumer that rejects monitor events (the run fails inside `monitor`)
     sc = base_scenario("mon")
     sc["devices"]["mon1"]["notify"] = True
@@ -618,6 +636,22 @@ def random_bundle_programs(tier, seed=0):
     return out
 
 
+def double_suspension_scenarios(tier):
+    """two sequential suspensions (and pause/resume + suspension) in one call, after devices have been moved"""
+    out = []
+    for plan in ("move",) if tier == "quick" else ("move", "paus", "two"):
+        base = base_scenario(plan)
+        n = run_one(base)["points"]
+        for p in range(4, n + 1, 2 if tier == "quick" else 1):
+            for first in ("suspend", "pause"):
+                inj = [{"at": p, "kind": first, "arg": "f1"}]
+                if first == "suspend":
+                    inj.append({"at": p + 2, "kind": "release", "arg": "f1"})
+                inj += [{"at": p + 12, "kind": "suspend", "arg": "f2"}, {"at": p + 14, "kind": "release", "arg": "f2"}]
+                out.append(with_inject(base, inj, ["resume"] * 4, f"{first}@{p}+suspend@{p + 12}"))
+    return out
+
+
 def defer_pair_scenarios(tier):
     """a deferred pause followed, before the next checkpoint, by another interruption (suspension, pause+resume)"""
     out = []
@@ -714,6 +748,10 @@ def tag_pred(prop):
         return lambda t: t.startswith("C40:") or (t.startswith("C05:") and t.endswith(":interruptions"))
     if prop == "C41":
         return lambda t: t.startswith("C41:") or (t.startswith("C05:") and t.endswith(":monitor"))
+    if prop == "C14":
+        # "each run's documents satisfy the lifecycle and numbering guarantees on their own": C01 / C05 clauses count for C14
+        # on executions that keep several runs open under different keys
+        return lambda t, tid="": t.startswith("C14:") or ((t.startswith("C01:") or t.startswith("C05:")) and tid.split("|")[0] in MULTI_RUN_PLANS)
     return lambda t: t.startswith(prop + ":")
 
 
@@ -796,7 +834,7 @@ def check_property(ctx, prop, proj="full", extra_rule=""):
         print(f"NOTE: {len(rejected)} of {len(traces)} implementation traces are not accepted by RE.tla (spec drift), e.g. {ex[0]}")
     for i, tags, reqs in mon["pv"]:
         for tag in tags:
-            if pred(tag):
+            if (pred(tag, traces[i]["id"]) if prop == "C14" else pred(tag)):
                 s = signature(tag, reqs)
                 seen_classes.add(sig_class(s))
                 t = traces[i]
